@@ -151,6 +151,51 @@ SYNTAX_FORMS_3 = ["a[b to c]", "def e1 = a; e1[b] = c", "a[b, c]", "if a then b 
                   "a < b < c", "a + b * c", "def m1 = a; m1[b, c] += 1"]
 
 
+def native_correspondence(ctx):
+    """the driver's interpretation of the built-ins the evaluator model leaves open (Driver/NativeSem.lean: bit functions, pow, int /
+    decimal / boolean conversions, trim / upper / lower, the regex natives on a regex fragment, s, round, sqrt, …) against the
+    implementation: every call where the driver does not abstain must agree in outcome, value and output"""
+    from harness import validate_natives_agent as VN
+    from harness import session as S
+    cases = VN.build_cases()
+    natives = sorted(cases)
+    flat = [(n, p) for n in natives for p in cases[n] if not VN.resource_risk(p)]
+    if not ctx.thorough:
+        flat = ctx.rng.sample(flat, min(len(flat), 6000))
+    bind = "; ".join(f"bind_native('{n}')" for n in natives)
+    batches = [flat[i:i + 250] for i in range(0, len(flat), 250)]
+    impl_results, requests = [], []
+    for batch in batches:
+        progs = [bind] + [p for _, p in batch]
+        sess = S.ImplSession(secure=True, legacy=True)
+        try:
+            impl_results.append([sess.run(p, limit=20) for p in progs])
+        finally:
+            sess.close()
+        requests.append(S.model_request(progs, secure=True, fuel=20000, legacy=True))
+    responses = core.run_driver(requests)
+    import sys as _sys
+    old_limit = _sys.get_int_max_str_digits()
+    _sys.set_int_max_str_digits(0)
+    try:
+        for batch, impl, resp in zip(batches, impl_results, responses):
+            model, _g = S.parse_model_session(resp)
+            for (n, p), i_res, m_res in zip(batch, impl[1:], model[1:]):
+                mo = m_res[0]
+                ctx.seen(("native", p), nontrivial=True)
+                if mo[0] == 'fail' and mo[1] in ('unsupported', 'oof'):
+                    ctx.count("driver_natives_abstain")
+                    continue
+                ctx.count("driver_natives_checked")
+                d = S.compare(i_res, m_res)
+                if d is not None:
+                    ctx.disagreements += 1
+                    ctx.violation("correspondence", f"`{p[:160]}`: {d[:300]}", {"op": "native", "program": bind + "; " + p,
+                                  "correspondence": "Ckl.driverNativeSem (Driver/NativeSem.lean) vs the built-in " + n})
+    finally:
+        _sys.set_int_max_str_digits(old_limit)
+
+
 def run(ctx):
     rng = ctx.rng
     n = len(POOL_SRC)
@@ -261,6 +306,8 @@ def run(ctx):
     ctx.sample({"call": "substr(a, b)", "a": "'abc'", "b": "NULL", "outcome": "runtime error, caught by catch all"})
     ctx.sample({"form": "a[b to *]", "a": "[1, 2]", "b": "'a'", "outcome": "runtime error"})
     ctx.sample({"form": "for [x, y] in a do x end", "a": "[[1, 2], [3, 4]]", "outcome": "value"})
+    if ctx.build.ok:
+        native_correspondence(ctx)
     common.replay_known(ctx)
 
 
